@@ -517,8 +517,18 @@ def deeper_search(run: Run, rng, corr: list, stats: dict) -> None:
                         body = ["cmp", ["s", rng.choice(["==", "!="]), ["str", ["ph", 0]], ["lit", cp(lit)]],
                                 [["rule", x]]]
                         progs.append([q, rng.random() < 0.5, ["nt", x], ["star", [sel, ["rule", y], ["rule", x]]], body])
+        # quantifiers whose DOMAIN is a slice selection (`forall <x> in <y>[1:]`): the bound values are parentless
+        # views, so anything that identifies a binding by its position confuses them (seeded change C07-4)
+        for (y, x) in sorted(pairs_yx)[:6]:
+            for lit in sorted(vals.get(x, ()))[:2]:
+                for q in ("all", "any"):
+                    for sl in ([["slice", 0, None, None]], [["slice", 1, None, None]], [["slice", None, None, 2]],
+                               [["slice", 0, 2, None]]):
+                        body = ["cmp", ["s", rng.choice(["==", "!="]), ["str", ["ph", 0]], ["lit", cp(lit)]],
+                                [["rule", x]]]
+                        progs.append([q, rng.random() < 0.5, ["nt", x], ["item", ["rule", y], sl], body])
         rng.shuffle(progs)
-        for prog in progs[:24]:
+        for prog in progs[:40]:
             for i in range(0, min(len(trees), 24), 6):
                 cases.append(Case(gtext, prog, trees[i:i + 6], "search:shadowing"))
     run.count("deeper_search_pairs", len(pairs))
